@@ -65,6 +65,7 @@ type c09Cfg struct {
 	ahead          int   // default limiter: how many requests are acquired ahead of the one being completed
 	window         int   // window size (0 = 10, the smallest the constructors accept)
 	rtt            int64 // windowed limit: RTT of the default sample (0 = 20 ms)
+	reverse        bool  // default limiter, everything acquired up front: complete in reverse order of acquisition (in-flight at admission falls from window to window)
 }
 
 func (c c09Cfg) win() int {
@@ -146,10 +147,15 @@ func c09Default(cfg c09Cfg, hist []int) (got, want []delivered, trace string) {
 			outstanding++
 		}
 		acquireUpTo(i + cfg.ahead)
-		tok := toks[i]
+		ti := i
+		if cfg.reverse {
+			acquireUpTo(n - 1)
+			ti = n - 1 - i
+		}
+		tok := toks[ti]
 		vrt.ManualClock += dur
 		end := vrt.ManualClock
-		rtt := end - starts[i]
+		rtt := end - starts[ti]
 		before := len(rec.Samples)
 		complete(tok, outcome)
 		outstanding--
@@ -172,16 +178,16 @@ func c09Default(cfg c09Cfg, hist []int) (got, want []delivered, trace string) {
 				if rtt < refMin {
 					refMin = rtt
 				}
-				if infl[i] > refMax {
-					refMax = infl[i]
+				if infl[ti] > refMax {
+					refMax = infl[ti]
 				}
 				refN++
 				added = true
 			}
 		case 2:
 			refDrop = true
-			if infl[i] > refMax {
-				refMax = infl[i]
+			if infl[ti] > refMax {
+				refMax = infl[ti]
 			}
 			added = true
 		}
@@ -331,7 +337,7 @@ func c09Compare(kind string, devNames []string, hist []int, got, want []delivere
 }
 
 func c09Run(c *Ctx, name string, cfg c09Cfg, devNames []string, db int, run func(c09Cfg, []int) ([]delivered, []delivered, string)) {
-	params := fmt.Sprintf("minWindow=%dms maxWindow=%dms threshold=%dns windowSize=%d acquired-ahead=%d default-rtt=%dms history=26 deviations<=%d of %v", cfg.minWin/1e6, cfg.maxWin/1e6, cfg.threshold, cfg.win(), cfg.ahead, cfg.rtt/1e6, db, devNames[1:])
+	params := fmt.Sprintf("minWindow=%dms maxWindow=%dms threshold=%dns windowSize=%d acquired-ahead=%d reverse-completion=%v default-rtt=%dms history=26 deviations<=%d of %v", cfg.minWin/1e6, cfg.maxWin/1e6, cfg.threshold, cfg.win(), cfg.ahead, cfg.reverse, cfg.rtt/1e6, db, devNames[1:])
 	if c.replay != nil {
 		if c.replay.Scenario == name && c.replay.Params == params {
 			got, want, _ := run(cfg, c.replay.Choices)
@@ -410,6 +416,9 @@ func runC09(c *Ctx) {
 	c09Run(c, "C09/default-limiter", c09Cfg{minWin: 1e6, maxWin: 10e6, threshold: 1, ahead: 12}, c09Dev, db, c09Default)
 	c09Run(c, "C09/windowed-limit", c09Cfg{minWin: 100e6, maxWin: 400e6, threshold: 1, rtt: 80e6}, c09WDev, db, c09Windowed)
 	c09Run(c, "C09/windowed-limit", c09Cfg{minWin: 100e6, maxWin: 120e6, threshold: 1, rtt: 80e6}, c09WDev, db, c09Windowed)
+	// everything acquired up front and completed newest-first: operations outstanding when a window
+	// closes were admitted at a higher in-flight than anything the next window folds
+	c09Run(c, "C09/default-limiter", c09Cfg{minWin: 10e6, maxWin: 10e6, threshold: 1, ahead: 25, reverse: true}, c09Dev, db, c09Default)
 	// a larger window size: 13 qualifying completions per window (default limiter), closing sample's
 	// in-flight must exceed 12 (windowed limit; its default in-flight of 11 never closes, 30 does)
 	c09Run(c, "C09/default-limiter", c09Cfg{minWin: 10e6, maxWin: 10e6, threshold: 1, window: 12}, c09Dev, db, c09Default)
